@@ -3,6 +3,7 @@
 -/
 import Asn1.Generated
 import Proofs.Sound
+import Proofs.Codec
 
 namespace Asn1.C10
 
@@ -38,6 +39,29 @@ theorem accepted_is_value (cfg : DecCfg) (ty : Ty) (bs : Bytes) (v : Val) (rest 
   have := decode_sound cfg ty bs v rest hw h
   rw [he, HasType_ne_absent] at this
   exact Bool.noConfusion this
+
+/-- **the accepted value re-encodes and the re-encoding is a fixpoint** (BER, any mode; region: no
+    ANY, finding E1 in indefinite mode).  Whatever the BER decoder returned for *any* input — valid,
+    damaged, in any form — is a complete value (`decode_sound`); if the library's encoder accepts it
+    (it refuses only values whose lengths cannot be written), decoding that re-encoding gives the same
+    abstract value again and nothing is left over. -/
+theorem accepted_reencodes_to_fixpoint (ty : Ty) (bs : Bytes) (v : Val) (rest : Bytes)
+    (defMode : Bool) (maxChunk : Nat) (b : Bytes)
+    (hw : ty.WF = true) (hreg : ty.reg true Generated.berEnc defMode = true)
+    (h : decodeOne Generated.berDecByType ty bs = .ok (v, rest))
+    (he : encItem Generated.berEnc { defMode := defMode, maxChunk := maxChunk } ty v = .ok b) :
+    ∃ w, decodeOne Generated.berDecByType ty b = .ok (w, []) ∧ VEq ty v w := by
+  have hty := decode_sound _ ty bs v rest hw h
+  have hR : EncRegion Generated.berEnc berProfile
+      (Generated.berEnc.fixedChunk.getD ({ defMode := defMode, maxChunk := maxChunk } : EncOpts).maxChunk) :=
+    { boolT := by decide, chunk := Or.inr rfl, setOmit := Or.inl rfl }
+  have hC : Compat berProfile Generated.berDecByType :=
+    { bool := fun _ => rfl, seg := fun _ => ⟨rfl, by decide⟩ }
+  -- with seqOmitEmpty = false no member is ever left out for being empty
+  have hn : noE3 Generated.berEnc.seqOmitEmpty ty v = true := noE3_false ty v
+  have := codec_roundtrip Generated.berEnc Generated.berDecByType berProfile
+    { defMode := defMode, maxChunk := maxChunk } rfl hR hC (Or.inr rfl) ty v b [] hreg hw hty hn he
+  simpa using this
 
 /-- non-vacuity: a nested well-formed type with OPTIONAL, DEFAULT, CHOICE and tags -/
 example : (Ty.seq (.cons .req (.prim .integer)
